@@ -407,6 +407,10 @@ type agg struct {
 	crashes     []*crash
 	sampleSeeds []uint64
 	detSample   []*simplan.Result
+	// plans that used up their real-time budget and were ended at a step boundary
+	abandoned      int
+	abandonedSeeds []uint64
+	wallMaxMs      int64
 }
 
 func (a *agg) add(r *simplan.Result) {
@@ -432,6 +436,15 @@ func (a *agg) add(r *simplan.Result) {
 			a.sampleSeeds = append(a.sampleSeeds, r.Seed)
 		}
 	}
+	if r.WallMs > a.wallMaxMs {
+		a.wallMaxMs = r.WallMs
+	}
+	if r.Abandoned != "" {
+		a.abandoned++
+		if len(a.abandonedSeeds) < 20 {
+			a.abandonedSeeds = append(a.abandonedSeeds, r.Seed)
+		}
+	}
 	switch r.Verdict {
 	case "violation":
 		for _, v := range r.Violations {
@@ -446,6 +459,9 @@ func (a *agg) add(r *simplan.Result) {
 		}
 	}
 	// deterministic sampling for the self-test: every 50th evaluation
+	if r.Abandoned != "" {
+		return // where it ended depends on the machine: no sample for the self-test
+	}
 	if a.evals%a.detEvery() == 1 && len(a.detSample) < 40 || (detOverride() > 0 && len(a.detSample) < detOverride()) {
 		a.detSample = append(a.detSample, r)
 	}
@@ -530,6 +546,9 @@ func (c *check) run() int {
 	c.writeEvidence(a, wall, total.exploreS, total.buildS, total.detRe, total.detSame, total.nviol, total.known, base)
 	fmt.Printf("%s %s: %d plans (%d distinct non-trivial traces, %d shapes), %.0f simulated s, %.1fs wall (build %.1fs), determinism %d/%d, violations %d, known findings %d\n",
 		c.spec.ID, c.tier, a.evals, len(a.digests), len(a.coarse), float64(a.simMs)/1000, wall, total.buildS, total.detSame, total.detRe, total.nviol, len(total.known))
+	if a.abandoned > 0 {
+		fmt.Printf("%s %s: %d of those plans used up their real-time budget on this machine and were ended at a step boundary without their end-of-plan clauses (not judged; seeds %v)\n", c.spec.ID, c.tier, a.abandoned, a.abandonedSeeds)
+	}
 	if total.exit == 1 {
 		return 1
 	}
@@ -548,6 +567,7 @@ func (c *check) runPart(a *agg, share float64, base uint64) partOutcome {
 	buildS := time.Since(t0).Seconds()
 	out.buildS = buildS
 	evals0 := a.evals
+	abandoned0 := a.abandoned
 	a.viol = map[string][]*simplan.Result{}
 	a.errors = nil
 	a.crashes = nil
@@ -592,8 +612,12 @@ func (c *check) runPart(a *agg, share float64, base uint64) partOutcome {
 				remain := time.Until(deadline).Seconds()
 				args := []string{"-sim.cmd=batch", "-sim.prop=" + c.spec.ID, "-sim.tier=" + c.tier,
 					fmt.Sprintf("-sim.from=%d", base+from), fmt.Sprintf("-sim.count=%d", n),
-					fmt.Sprintf("-sim.deadline=%.1f", remain+1)}
-				res, cr, err := c.runWorker(args, out, time.Duration(c.spec.PlanTimeoutS*float64(n)+remain+30)*time.Second, c.spec.Procs())
+					fmt.Sprintf("-sim.deadline=%.1f", remain+1), fmt.Sprintf("-sim.planwall=%.1f", c.spec.planWallS())}
+				// The worker starts no plan after the deadline and a plan ends itself at
+				// its next step boundary once its real-time budget (half the plan timeout)
+				// is used up, so only the last plan can overrun; the watchdog is for a
+				// worker that is stuck, not for one that is slow on a loaded machine.
+				res, cr, err := c.runWorker(args, out, time.Duration(remain+1+3*c.spec.PlanTimeoutS+60)*time.Second, c.spec.Procs())
 				if err != nil {
 					a.mu.Lock()
 					a.crashes = append(a.crashes, &crash{Output: "cannot start worker: " + err.Error()})
@@ -751,6 +775,8 @@ func (c *check) runPart(a *agg, share float64, base uint64) partOutcome {
 	}
 	if a.evals == evals0 {
 		out.trouble += fmt.Sprintf("\n[%s] no plan was executed", c.spec.Harness)
+	} else if a.evals-evals0 <= a.abandoned-abandoned0 {
+		out.trouble += fmt.Sprintf("\n[%s] every plan used up its real-time budget (%.0fs) before it ended: nothing was judged", c.spec.Harness, c.spec.planWallS())
 	}
 	out.detRe, out.detSame = detRe, detSame
 	if len(detDiff) > 0 {
@@ -1234,17 +1260,20 @@ func (c *check) writeEvidence(a *agg, wall, exploreS, buildS float64, detRe, det
 			"client_operations":    a.ops,
 			"sim_time_s":           round1(float64(a.simMs) / 1000),
 			"plans_per_hour":       int(pph),
-			"plan_seed_first":      base,
-			"plan_seed_last":       base + uint64(max(a.evals-1, 0)),
-			"fault_counts":         a.faults,
-			"probe_counts":         a.probes,
-			"determinism":          map[string]int{"replayed_in_fresh_process": detRe, "identical_trace": detSame},
-			"components":           map[string]interface{}{"real": c.spec.Real, "model": c.spec.Model},
-			"known_findings_hit":   kf,
-			"build_s":              round1(buildS),
-			"harness":              c.spec.Harness,
-			"race_build":           c.spec.Race,
-			"technique":            "deterministic simulation with fault injection: seeded plans (ops + faults + knobs) executed in a synctest bubble on a patched deterministic runtime; oracles = reference model + invariants at quiescent instants and over the recorded history",
+			"plans_abandoned_wall_budget": map[string]interface{}{"count": a.abandoned, "seeds": a.abandonedSeeds, "budget_s": c.spec.planWallS(),
+				"meaning": "plans whose execution used more real time than the per-plan budget on this machine; they were ended at their next step boundary, clauses evaluated up to there stand, end-of-plan clauses were not evaluated"},
+			"plan_wall_ms_max":   a.wallMaxMs,
+			"plan_seed_first":    base,
+			"plan_seed_last":     base + uint64(max(a.evals-1, 0)),
+			"fault_counts":       a.faults,
+			"probe_counts":       a.probes,
+			"determinism":        map[string]int{"replayed_in_fresh_process": detRe, "identical_trace": detSame},
+			"components":         map[string]interface{}{"real": c.spec.Real, "model": c.spec.Model},
+			"known_findings_hit": kf,
+			"build_s":            round1(buildS),
+			"harness":            c.spec.Harness,
+			"race_build":         c.spec.Race,
+			"technique":          "deterministic simulation with fault injection: seeded plans (ops + faults + knobs) executed in a synctest bubble on a patched deterministic runtime; oracles = reference model + invariants at quiescent instants and over the recorded history",
 		},
 	}
 	os.MkdirAll(filepath.Join(verifDir, "evidence"), 0o755)
